@@ -10,7 +10,6 @@ From V Require Export Proofs.C08Sweeps Proofs.C08Date Proofs.C08Days Proofs.C08A
 Import ListNotations.
 Open Scope Z_scope.
 Ltac Zify.zify_post_hook ::= Z.to_euclidean_division_equations.
-Set Default Timeout 120.
 
 (** resolve one trapping operation whose result is in range *)
 Ltac chk_ok := unfold add_i32, sub_i32, mul_i32, neg_i32, add_u32, sub_u32, mul_u32, add_i64, sub_i64, mul_i64, chk;
